@@ -34,19 +34,33 @@ func paramTypes(p *core.Program) []*types.Named {
 	return out
 }
 
+// hexDigitsOf recognises the two spellings of "0x" + <digits>: fmt.Sprintf("0x%s", digits) and "0x" + digits.
+func hexDigitsOf(t *tf.Term) (*tf.Term, string) {
+	if t.K == tf.KCall && strings.HasSuffix(t.Name, "fmt.Sprintf") && len(t.Args) == 2 {
+		if s, ok := constStr(t.Args[0]); !ok || s != "0x%s" {
+			return nil, "format " + describe(t.Args[0]) + " is not \"0x%s\": the decoder (base 0) needs the 0x prefix to read hexadecimal"
+		}
+		parts := tf.Parts(t.Args[1])
+		if len(parts) != 1 || parts[0].K != tf.KElem {
+			return nil, "unexpected Sprintf operands"
+		}
+		return parts[0].Args[0], ""
+	}
+	if t.K == tf.KBin && t.Name == "+" && len(t.Args) == 2 {
+		if s, ok := constStr(t.Args[0]); ok && s == "0x" {
+			return t.Args[1], ""
+		}
+		return nil, "string concatenation does not start with the \"0x\" prefix: " + describe(t.Args[0])
+	}
+	return nil, "not rendered as \"0x\"+hex: " + describe(t)
+}
+
 // hexOfBig recognises "0x"+x.Text(16) and returns x.
 func hexOfBig(t *tf.Term) (*tf.Term, string) {
-	if !(t.K == tf.KCall && strings.HasSuffix(t.Name, "fmt.Sprintf") && len(t.Args) == 2) {
-		return nil, "not rendered as \"0x\"+hex: " + describe(t)
+	txt, why := hexDigitsOf(t)
+	if txt == nil {
+		return nil, why
 	}
-	if s, ok := constStr(t.Args[0]); !ok || s != "0x%s" {
-		return nil, "format " + describe(t.Args[0]) + " is not \"0x%s\": the decoder (base 0) needs the 0x prefix to read hexadecimal"
-	}
-	parts := tf.Parts(t.Args[1])
-	if len(parts) != 1 || parts[0].K != tf.KElem {
-		return nil, "unexpected Sprintf operands"
-	}
-	txt := parts[0].Args[0]
 	if !(txt.K == tf.KCall && strings.HasSuffix(txt.Name, "math/big.Int).Text") && len(txt.Args) == 2) {
 		return nil, "digits are not produced by big.Int.Text: " + describe(txt)
 	}
